@@ -1,5 +1,6 @@
 import WS.Basic
 import WS.Model.Mask
+import WS.Gen.Consts
 /-
   WS.Model.Writer — executable model of the write side of conn.go:
 
@@ -78,7 +79,7 @@ structure W where
   writeErr : Option WErr := none
   deadline : Int := 0
   enableWC : Bool := true
-  level : Int := 1
+  level : Int := Gen.defaultCompressionLevel
   writer : Option Nat := none      -- c.writer (handle index)
   mws : List MW := []
   handles : List Handle := []
@@ -95,12 +96,13 @@ structure W where
   nextBuf : Nat := 0
   deriving Repr
 
-def maxFrameHeaderSize : Nat := 14
-def maxControlPayload : Nat := 125
-def defaultWriteBufferSize : Nat := 4096
+-- constants are the ones factgen reads from /repo on every run
+def maxFrameHeaderSize : Nat := Gen.maxFrameHeaderSize.toNat
+def maxControlPayload : Nat := Gen.maxControlFramePayloadSize.toNat
+def defaultWriteBufferSize : Nat := Gen.defaultWriteBufferSize.toNat
 
-def isControl (t : Int) : Bool := t == 8 || t == 9 || t == 10
-def isData (t : Int) : Bool := t == 1 || t == 2
+def isControl (t : Int) : Bool := t == Gen.CloseMessage || t == Gen.PingMessage || t == Gen.PongMessage
+def isData (t : Int) : Bool := t == Gen.TextMessage || t == Gen.BinaryMessage
 
 /-- newConn's write-side arithmetic: size ≤ 0 ↦ default; + header. `reuse` = length of a hijacked
     buffer handed in as writeBuf (server only). -/
@@ -149,6 +151,15 @@ def tWrite (s : W) (b : Bytes) : Option WErr × W :=
     let n := min n b.length
     (some (.transport id), emit { s with wire := s.wire ++ b.take n } (.wr b n (some id)))
 
+/-- `c.conn.Write(buf0)` or, with a second buffer, net.Buffers.WriteTo on a generic net.Conn:
+    one Write per buffer, stopping at the first error -/
+def writeBufs (s : W) (buf0 buf1 : Bytes) : Option WErr × W :=
+  if buf1.isEmpty then tWrite s buf0
+  else
+    match tWrite s buf0 with
+    | (some e, s) => (some e, s)
+    | (none, s) => tWrite s buf1
+
 /-- Conn.write under the (sequentially always free) mutex -/
 def connWrite (s : W) (ft : Int) (d : Int) (buf0 buf1 : Bytes) : Option WErr × W :=
   match s.writeErr with
@@ -157,13 +168,7 @@ def connWrite (s : W) (ft : Int) (d : Int) (buf0 buf1 : Bytes) : Option WErr × 
     match tSetWD s d with
     | (some e, s) => (some e, writeFatal s e)
     | (none, s) =>
-      let r : Option WErr × W :=
-        if buf1.isEmpty then tWrite s buf0
-        else
-          match tWrite s buf0 with
-          | (some e, s) => (some e, s)
-          | (none, s) => tWrite s buf1
-      match r with
+      match writeBufs s buf0 buf1 with
       | (some e, s) => (some e, writeFatal s e)
       | (none, s) => (none, if ft == 8 then writeFatal s .closeSent else s)
 
@@ -181,24 +186,19 @@ def controlFrame (isServer : Bool) (t : Nat) (data : Bytes) (key : Key) : Bytes 
   if isServer then [UInt8.ofNat (t + 128), UInt8.ofNat data.length] ++ data
   else [UInt8.ofNat (t + 128), UInt8.ofNat (data.length + 128)] ++ key.bytes ++ maskFrom key 0 data
 
-/-- Conn.WriteControl. `d = 0` is the zero time; `d < 0` is a deadline already in the past. -/
+/-- the masking key WriteControl draws (clients only) -/
+def ctlKey (s : W) : Key × W := if s.isServer then (default, s) else newKey s
+
+/-- Conn.WriteControl. `d = 0` is the zero time; `d < 0` is a deadline already in the past.
+    Sequentially the mutex is always free, so the locked part (check the sticky error, set the
+    deadline, one Write, mark a close) behaves exactly like `connWrite` with a single buffer. -/
 def writeControl (s : W) (t : Int) (data : Bytes) (d : Int) : Option WErr × W :=
   if !isControl t then (some .badOpcode, s)
   else if data.length > maxControlPayload then (some .invalidControl, s)
   else
-    let (key, s) := if s.isServer then (default, s) else newKey s
-    let buf := controlFrame s.isServer t.toNat data key
-    if d < 0 then (some .writeTimeout, s)
-    else
-      match s.writeErr with
-      | some e => (some e, s)
-      | none =>
-        match tSetWD s d with
-        | (some e, s) => (some e, writeFatal s e)
-        | (none, s) =>
-          match tWrite s buf with
-          | (some e, s) => (some e, writeFatal s e)
-          | (none, s) => (none, if t == 8 then writeFatal s .closeSent else s)
+    let ks := ctlKey s
+    if d < 0 then (some .writeTimeout, ks.2)
+    else connWrite ks.2 t d (controlFrame s.isServer t.toNat data ks.1) []
 
 def poolPut (s : W) : W :=
   match s.bufRef with
@@ -218,48 +218,50 @@ def endMessage (s : W) (m : MW) (e : WErr) : W × MW :=
     let s := { s with writer := none }
     (if s.pool then poolPut s else s, { m with err := some e })
 
+/-- the part of flushFrame between validation and bookkeeping: build the header, mask, and hand
+    the frame to Conn.write -/
+def frameWrite (s : W) (m : MW) (final : Bool) (extra : Bytes) : Option WErr × W :=
+  let length := m.buf.length + extra.length
+  let b0 : Nat := m.ft + (if final then Gen.finalBit.toNat else 0) + (if m.compress then Gen.rsv1Bit.toNat else 0)
+  if s.isServer then
+    connWrite s m.ft s.deadline (header true b0 length default ++ m.buf) extra
+  else
+    let (k, s) := newKey s
+    if !extra.isEmpty then
+      (some .internalExtra, writeFatal s .internalExtra)
+    else
+      connWrite s m.ft s.deadline (header false b0 length k ++ maskFrom k 0 m.buf) []
+
 /-- messageWriter.flushFrame -/
 def flushFrame (s : W) (m : MW) (final : Bool) (extra : Bytes) : Option WErr × W × MW :=
-  let length := m.buf.length + extra.length
-  if isControl m.ft && (!final || length > maxControlPayload) then
+  if isControl m.ft && (!final || m.buf.length + extra.length > maxControlPayload) then
     let (s, m) := endMessage s m .invalidControl
     (some .invalidControl, s, m)
   else
-    let b0 : Nat := m.ft + (if final then 128 else 0) + (if m.compress then 64 else 0)
-    let ft := m.ft
-    let m := { m with compress := false }
-    let r : Option WErr × W :=
-      if s.isServer then
-        connWrite s ft s.deadline (header true b0 length default ++ m.buf) extra
-      else
-        let (k, s) := newKey s
-        if !extra.isEmpty then
-          (some .internalExtra, writeFatal s .internalExtra)
-        else
-          connWrite s ft s.deadline (header false b0 length k ++ maskFrom k 0 m.buf) []
-    match r with
+    match frameWrite s m final extra with
     | (some e, s) =>
-      let (s, m) := endMessage s m e
+      let (s, m) := endMessage s { m with compress := false } e
       (some e, s, m)
     | (none, s) =>
       if final then
-        let (s, m) := endMessage s m .writeClosed
+        let (s, m) := endMessage s { m with compress := false } .writeClosed
         (none, s, m)
-      else (none, s, { m with buf := [], ft := 0 })
+      else (none, s, { m with compress := false, buf := [], ft := 0 })
+
+/-- the flush at the start of ncopy: `if n <= 0 { flushFrame(false, nil) }` -/
+def ncopyPrep (s : W) (m : MW) : Option WErr × W × MW :=
+  if s.cap ≤ m.buf.length then flushFrame s m false [] else (none, s, m)
 
 /-- the `for len(p) > 0 { n, err := w.ncopy(len(p)); copy; w.pos += n; p = p[n:] }` loop -/
 def copyLoop (s : W) (m : MW) (p : Bytes) : Option WErr × W × MW :=
   if hp : p = [] then (none, s, m)
   else
-    -- ncopy
-    let r : Option WErr × W × MW :=
-      if s.cap ≤ m.buf.length then flushFrame s m false [] else (none, s, m)
-    match r with
+    match ncopyPrep s m with
     | (some e, s, m) => (some e, s, m)
     | (none, s, m) =>
-      let n := min (s.cap - m.buf.length) p.length
-      if hn : n = 0 then (some .hang, s, m)
-      else copyLoop s { m with buf := m.buf ++ p.take n } (p.drop n)
+      if hn : min (s.cap - m.buf.length) p.length = 0 then (some .hang, s, m)
+      else copyLoop s { m with buf := m.buf ++ p.take (min (s.cap - m.buf.length) p.length) }
+             (p.drop (min (s.cap - m.buf.length) p.length))
 termination_by p.length
 decreasing_by
   have : p.length ≠ 0 := by simpa using hp
@@ -312,21 +314,19 @@ def Src.size (r : Src) : Nat := (r.chunks.map (·.length + 1)).sum
 
 /-- messageWriter.ReadFrom; returns (nn, err). Fuel bounds the number of Read calls; every
     Read of a non-empty room consumes bytes or reaches the terminal, so `Src.size + 1` suffices. -/
+def readFromPrep (s : W) (m : MW) : Option WErr × W × MW :=
+  if m.buf.length == s.cap then flushFrame s m false [] else (none, s, m)
+
 def readFromLoop : Nat → W → MW → Src → Nat → (Nat × Option WErr) × W × MW
   | 0, s, m, _, nn => ((nn, some .hang), s, m)
   | fuel + 1, s, m, r, nn =>
-    let fr : Option WErr × W × MW :=
-      if m.buf.length == s.cap then flushFrame s m false [] else (none, s, m)
-    match fr with
+    match readFromPrep s m with
     | (some e, s, m) => ((nn, some e), s, m)
     | (none, s, m) =>
-      let (bs, t, r) := r.read (s.cap - m.buf.length)
-      let m := { m with buf := m.buf ++ bs }
-      let nn := nn + bs.length
-      match t with
-      | some none => ((nn, none), s, m)                 -- io.EOF ↦ nil
-      | some (some id) => ((nn, some (.reader id)), s, m)
-      | none => readFromLoop fuel s m r nn
+      match r.read (s.cap - m.buf.length) with
+      | (bs, some none, _) => ((nn + bs.length, none), s, { m with buf := m.buf ++ bs })  -- io.EOF ↦ nil
+      | (bs, some (some id), _) => ((nn + bs.length, some (.reader id)), s, { m with buf := m.buf ++ bs })
+      | (bs, none, r) => readFromLoop fuel s { m with buf := m.buf ++ bs } r (nn + bs.length)
 
 def mwReadFrom (s : W) (m : MW) (r : Src) : (Nat × Option WErr) × W × MW :=
   match m.err with
@@ -337,6 +337,7 @@ def mwReadFrom (s : W) (m : MW) (r : Src) : (Nat × Option WErr) × W × MW :=
 
 def getMW (s : W) (i : Nat) : MW := s.mws.getD i {}
 def setMW (s : W) (i : Nat) (m : MW) : W := { s with mws := s.mws.set i m }
+def setHandle (s : W) (h : Nat) (x : Handle) : W := { s with handles := s.handles.set h x }
 
 /-- feed the chunks flate pushed through truncWriter into the messageWriter -/
 def feed (s : W) (m : MW) : List Bytes → Option WErr × W × MW
@@ -364,7 +365,7 @@ def hWrite (s : W) (h : Nat) (p : Bytes) (dn : List Bytes) (asString : Bool := f
       let (e, s, m) := feed s (getMW s i) dn
       let s := setMW s i m
       let sent := sent ++ dn.flatten
-      let s := { s with handles := s.handles.set h (.flate i true e sent) }
+      let s := setHandle s h (.flate i true e sent)
       ((if e.isSome then 0 else p.length, e), s)
 
 /-- Close on a handle. `dn` = flate's Flush output after truncation; `full` = the complete deflate
@@ -380,12 +381,12 @@ def hClose (s : W) (h : Nat) (dn : List Bytes) (full : Bytes) : Option WErr × W
     else match derr with
     | some _ =>
       -- flate is in error; Close reports *some* error; the messageWriter already ended
-      (some .any, { s with handles := s.handles.set h (.flate i false derr sent) })
+      (some .any, setHandle s h (.flate i false derr sent))
     | none =>
       let (e1, s, m) := feed s (getMW s i) dn
       let s := setMW s i m
       let sent := sent ++ dn.flatten
-      let s := { s with handles := s.handles.set h (.flate i false e1 sent) }
+      let s := setHandle s h (.flate i false e1 sent)
       match e1 with
       | some _ => (some .any, s)
       | none =>
@@ -395,19 +396,29 @@ def hClose (s : W) (h : Nat) (dn : List Bytes) (full : Bytes) : Option WErr × W
           let (e2, s, m) := mwClose s (getMW s i)
           (e2, setMW s i m)
 
-/-- beginMessage; returns the fresh messageWriter on success -/
-def beginMessage (s : W) (t : Int) (dnPrev : List Bytes) (fullPrev : Bytes) : Except WErr MW × W :=
-  let s := match s.writer with
-    | some h => { (hClose s h dnPrev fullPrev).2 with writer := none }
-    | none => s
+def clearWriter (s : W) : W := { s with writer := none }
+
+/-- `if c.writer != nil { c.writer.Close(); c.writer = nil }` -/
+def closePrev (s : W) (dnPrev : List Bytes) (fullPrev : Bytes) : W :=
+  match s.writer with
+  | some h => clearWriter (hClose s h dnPrev fullPrev).2
+  | none => s
+
+def ensureBuf (s : W) : W :=
+  match s.bufRef with
+  | .nil => poolGet s
+  | _ => s
+
+/-- beginMessage after the implicit close; returns the fresh messageWriter on success -/
+def beginMessage' (s : W) (t : Int) : Except WErr MW × W :=
   if !isControl t && !isData t then (.error .badOpcode, s)
   else match s.writeErr with
   | some e => (.error e, s)
-  | none =>
-    let s := match s.bufRef with
-      | .nil => poolGet s
-      | _ => s
-    (.ok { ft := t.toNat }, s)
+  | none => (.ok { ft := t.toNat }, ensureBuf s)
+
+/-- beginMessage -/
+def beginMessage (s : W) (t : Int) (dnPrev : List Bytes) (fullPrev : Bytes) : Except WErr MW × W :=
+  beginMessage' (closePrev s dnPrev fullPrev) t
 
 /-- NextWriter: returns the handle index -/
 def nextWriter (s : W) (t : Int) (dnPrev : List Bytes := []) (fullPrev : Bytes := []) : Except WErr Nat × W :=
@@ -469,6 +480,54 @@ def writePreparedImage (s : W) (t : Int) (image : Bytes) : Option WErr × W :=
 def setWriteDeadline (s : W) (d : Int) : W := { s with deadline := d }
 def enableWriteCompression (s : W) (b : Bool) : W := { s with enableWC := b }
 def setCompressionLevel (s : W) (l : Int) : Option WErr × W :=
-  if -2 ≤ l && l ≤ 9 then (none, { s with level := l }) else (some .badLevel, s)
+  if Gen.minCompressionLevel ≤ l && l ≤ Gen.maxCompressionLevel then (none, { s with level := l }) else (some .badLevel, s)
+
+end WS
+
+namespace WS
+
+/-! ### the public write API as an operation alphabet (for theorems over all programs) -/
+
+inductive Op
+  | nextWriter (t : Int) (dnp : List Bytes) (fullp : Bytes)
+  | write (h : Nat) (p : Bytes) (dn : List Bytes) (asString : Bool)
+  | readFrom (h : Nat) (src : Src)
+  | close (h : Nat) (dn : List Bytes) (full : Bytes)
+  | writeMessage (t : Int) (data : Bytes) (dnp : List Bytes) (fullp : Bytes) (dn : List Bytes) (full : Bytes)
+  | writeJSON (enc : Bytes) (dnp : List Bytes) (fullp : Bytes) (dn : List Bytes) (full : Bytes)
+  | writeControl (t : Int) (data : Bytes) (d : Int)
+  | writePrepared (t : Int) (image : Bytes)
+  | setWriteDeadline (d : Int)
+  | enableWriteCompression (b : Bool)
+  | setCompressionLevel (l : Int)
+
+/-- ReadFrom on a handle: messageWriter implements io.ReaderFrom; a flate wrapper does not (io.Copy
+    then falls back to Write, which is `Op.write`) -/
+def hReadFrom (s : W) (h : Nat) (r : Src) : Option WErr × W :=
+  match s.handles[h]? with
+  | some (.plain i) =>
+    let ((_, e), s, m) := mwReadFrom s (getMW s i) r
+    (e, setMW s i m)
+  | _ => (some .any, s)
+
+def applyOp (s : W) : Op → Option WErr × W
+  | .nextWriter t dnp fullp =>
+    match nextWriter s t dnp fullp with
+    | (.ok _, s) => (none, s)
+    | (.error e, s) => (some e, s)
+  | .write h p dn asString => let ((_, e), s) := hWrite s h p dn asString; (e, s)
+  | .readFrom h r => hReadFrom s h r
+  | .close h dn full => hClose s h dn full
+  | .writeMessage t data dnp fullp dn full => writeMessage s t data dnp fullp dn full
+  | .writeJSON enc dnp fullp dn full => writeJSON s enc dnp fullp dn full
+  | .writeControl t data d => writeControl s t data d
+  | .writePrepared t image => writePreparedImage s t image
+  | .setWriteDeadline d => (none, setWriteDeadline s d)
+  | .enableWriteCompression b => (none, enableWriteCompression s b)
+  | .setCompressionLevel l => setCompressionLevel s l
+
+def run (s : W) : List Op → W
+  | [] => s
+  | op :: ops => run (applyOp s op).2 ops
 
 end WS
